@@ -135,6 +135,49 @@ CLAIMS = {
               "traced runs are checked the same way at each phase boundary, including late in-place mutation of states already handed on."),
         note="In-place mutation is applied only to states that exclusively own their arrays; inverse_covariance (and, in the machine, the log-determinant) are scoring values the labelling phase refreshes on its input.",
         ref="DESIGN.md section 3, C13"),
+    "C14": dict(
+        technique="property-based testing over generated schedules and call histories: result digests compared across repeat runs, worker counts, injected per-task delays (completion order logged), pristine forked children with/without history, and PYTHONHASHSEED values",
+        text=("For generated small runs the SHA-256 of every result field must be identical across: a repeat from equal RNG states; "
+              "1..8 workers with multiprocessing on/off; per-task delays that permute the completion order (the realised orders are "
+              "logged through a pipe and counted); the same call executed first vs after 0..3 other-shaped calls in children forked "
+              "from a process that never called the library (with the real per-call pool and with in-process optimisation so memo "
+              "caches really persist), after which the memoised index helpers are re-verified; and processes with different hash seeds."),
+        note=("The harness chooses delays, not the OS schedule (limit of the technique for schedules). Bitwise comparison only within one "
+              "environment. Optimiser tasks are recognised by their covariance from a clean trace."),
+        ref="DESIGN.md section 3, C14"),
+    "C15": dict(
+        technique="differential property-based testing across three execution-mode worker processes (JIT, NUMBA_DISABLE_JIT, Numba not importable) and across numba thread counts",
+        text=("Generated kernel inputs (exact and float cost tables, layouts, dtypes; SPD models up to NW=200) and complete runs are "
+              "executed in three persistent workers and compared: exact cases identically, float cases up to the C01 rounding slack "
+              "(near-ties discarded and counted), likelihood tables within the condition-number-aware bound and bitwise across "
+              "1/2/4/8/16 threads, full runs by labels with divergence localised to the first differing round."),
+        note="Thread interleaving is not controlled, only the thread count. Modes are separate processes (Numba reads its configuration at import).",
+        ref="DESIGN.md section 3, C15"),
+    "C18": dict(
+        technique="metamorphic property-based testing: every exactly-equivalent rendering of a hyper-parameter value must give bitwise-identical optimiser output, labelling and end-to-end results",
+        text=("A value is rendered as Python float/int, every NumPy real scalar type that holds it exactly, and filled matrices/vectors "
+              "(C/F order, narrower exact dtypes); Theta from the optimiser entry point, the labelling phase (JIT and interpreted) and "
+              "complete runs (lambda, beta, covariance floor) are compared bit for bit with the Python-float form."),
+        note="Forms are used only when conversion is exact. Comparisons are within one process.",
+        ref="DESIGN.md section 3, C18"),
+    "C19": dict(
+        technique="property-based testing with byte-level before/after snapshots of every caller-owned argument over layouts, writability and injected failures",
+        text=("Both front ends, the optimiser entry point, the labelling kernel and phase are called with C/Fortran/strided, writable and "
+              "read-only arrays, in calls that succeed and calls made to fail (wrong input kind, injected optimiser fault, donor "
+              "shortage, non-numeric lambda); bytes (including the whole buffer under a view), dtype, shape, strides, flags and list "
+              "identity must be unchanged and read-only inputs must give bitwise the writable result."),
+        note="Fault injection through the public optimiser entry point under a synchronous stand-in pool.",
+        ref="DESIGN.md section 3, C19"),
+    "C20": dict(
+        level="fault_enumeration",
+        technique="fault enumeration: a fault injected at every (round, cluster) optimisation task and every (phase, round) of seeded runs, under single- and multi-worker pools, plus sampled faults / donor shortage / wrong input kinds; each followed by a clean call",
+        text=("For 24 (thorough 120) seeded configurations a clean traced run yields every optimiser task's covariance; each task in "
+              "turn is made to raise a picklable exception inside whichever worker receives it, and each phase function in each round "
+              "is made to raise in the parent, under Pool(1) and 2-4 workers. The call must raise the original type and message, "
+              "return nothing, return within a watchdog, leave no new child process at the moment the exception arrives, and a "
+              "following clean call must return bitwise the clean result. A shared counter proves the fault fired."),
+        note="Only standard picklable exceptions are injected. The harness decides which task fails, not how the OS schedules the others.",
+        ref="DESIGN.md section 3, C20"),
 }
 
 NOT_CLAIMED = {}
